@@ -126,7 +126,11 @@ ApplyBin(D, op, a, b) ==
          (IF op = "+" THEN Str(a.s \o b.s)
           ELSE IF op \in RelOps THEN Bool(RelHolds(op, LexLT(a.s, b.s), a.s = b.s))
           ELSE Err({TypeMismatch}))
-    ELSE IF a.k = "str" \/ b.k = "str" THEN Err({TypeMismatch})
+    ELSE IF a.k = "str" \/ b.k = "str" THEN
+         \* a string with a number: Type mismatch - unless the number is itself no operand of this operator
+         \* (beyond the integer range of \ MOD AND .. IMP), where the statement does not say which error wins
+         (LET num == IF a.k = "str" THEN b ELSE a
+          IN  IF op \in {"\\", "MOD"} \cup LogOps /\ ~IsInt16(num) THEN Out ELSE Err({TypeMismatch}))
     ELSE NumBin(D, op, a, b)
 
 ApplyUn(D, op, a) ==
